@@ -374,7 +374,18 @@ def handleTransform (req : Json) : R Json := do
     | "pa" => pure [("pa", cPa t r)]
     | "rank" => do pure [("rank", cRank (← oracleFn) t ax r)]
     | _ => pure []
-  let v := firstFail (generic ++ specific)
+  -- the same objects seen through other accessors (per-ID vectors of either axis, cells, iteration) after
+  -- the call: every view must show the content the matrix has NOW (no answer remembered from before)
+  let viewsResult ← match optFld req "viewsResult" with | none => pure [] | some j => asList asTable j
+  let viewsSelf ← match optFld req "viewsSelf" with | none => pure [] | some j => asList asTable j
+  let nnzOk ← match optFld req "nnzResult" with
+    | none => pure true
+    | some j => do pure ((← asList asNat j).all (· == (r.rows.map (fun row => (nz row).length)).sum))
+  let views : List (String × Bool) :=
+    [("accessor-views-result", viewsResult.all (fun w => decide (w = r))),
+     ("accessor-views-receiver", viewsSelf.all (fun w => decide (w = obs.selfAfter))),
+     ("accessor-nnz", nnzOk)]
+  let v := firstFail (generic ++ specific ++ views)
   let m := transform fn.eval ax inplace t cs
   let (agree, mj) := match m with
     | .ok mo =>
